@@ -1,14 +1,10 @@
 package checks
 
 import (
-	"fmt"
-	"regexp"
 	"strings"
 	"testing"
 	"unicode/utf8"
 
-	"github.com/prometheus/common/model"
-	"github.com/prometheus/common/promslog"
 	"pgregory.net/rapid"
 
 	"github.com/prometheus/alertmanager/config"
@@ -23,10 +19,6 @@ import (
 	"verif/harness/ref"
 )
 
-var nopLog = promslog.NewNopLogger()
-
-var opType = map[string]labels.MatchType{"=": labels.MatchEqual, "!=": labels.MatchNotEqual, "=~": labels.MatchRegexp, "!~": labels.MatchNotRegexp}
-
 // ---------------------------------------------------------------- round trip
 
 type c16RTMatcher struct {
@@ -38,8 +30,6 @@ type c16RTMatcher struct {
 type c16RTScenario struct {
 	Matchers []c16RTMatcher `json:"matchers"`
 }
-
-var classicName = regexp.MustCompile(`^[a-zA-Z_][a-zA-Z0-9_]*$`)
 
 func genC16Name(t *rapid.T) string {
 	switch rapid.IntRange(0, 3).Draw(t, "nameKind") {
@@ -452,30 +442,6 @@ func sampleFromRe(t *rapid.T, r *ref.Re) string {
 		return sb.String()
 	}
 	return ""
-}
-
-func toLabelsMatchers(set []ref.Matcher) (labels.Matchers, error) {
-	var out labels.Matchers
-	for _, m := range set {
-		v := m.Value
-		if m.Op == "=~" || m.Op == "!~" {
-			v = m.Pattern()
-		}
-		lm, err := labels.NewMatcher(opType[m.Op], m.Name, v)
-		if err != nil {
-			return nil, fmt.Errorf("NewMatcher(%s %s %q): %w", m.Name, m.Op, v, err)
-		}
-		out = append(out, lm)
-	}
-	return out, nil
-}
-
-func toLabelSet(m map[string]string) model.LabelSet {
-	ls := model.LabelSet{}
-	for k, v := range m {
-		ls[model.LabelName(k)] = model.LabelValue(v)
-	}
-	return ls
 }
 
 func execC16Sem(sc c16SemScenario) (res pbt.Result) {
